@@ -74,6 +74,7 @@ ViaLibs ==
          : d \in BOOLEAN, res \in {<<>>, <<Dn(4)>>},
            ls \in { <<>>, <<[layer_name |-> "m1", shapes |-> <<>>]>>,
                     <<[layer_name |-> "m1", shapes |-> <<VS("RECT", <<>>, 2)>>]>>,
+                    <<[layer_name |-> "m1", shapes |-> <<VS("RECT", <<Dn(1)>>, 2), VS("POLYGON", <<Dn(1)>>, 3)>>]>>,
                     <<[layer_name |-> "m1", shapes |-> <<VS("RECT", <<Dn(12)>>, 2), VS("POLYGON", <<>>, 3)>>],
                       [layer_name |-> "v1", shapes |-> <<VS("POLYGON", <<Dn(12)>>, 4)>>],
                       [layer_name |-> "m2", shapes |-> <<VS("RECT", <<>>, 2)>>]>> } }
@@ -87,7 +88,10 @@ Classes == { [k |-> "COVER", tp |-> <<>>], [k |-> "COVER", tp |-> <<"BUMP">>], [
    \cup { [k |-> "ENDCAP", tp |-> <<t>>] : t \in {"PRE", "POST", "TOPLEFT", "TOPRIGHT", "BOTTOMLEFT", "BOTTOMRIGHT"} }
 Pr(n, v, vk) == [name |-> n, value |-> v, vk |-> vk]
 PropSets == { <<Pr("p1", "v1", "id")>>, <<Pr("p1", "\"a b\"", "str")>>, <<Pr("p1", "1.50", "num")>>,
-              <<Pr("p1", "v1", "id"), Pr("p2", "\"s\"", "str"), Pr("p3", "-3", "num")>> }
+              <<Pr("p1", "v1", "id"), Pr("p2", "\"s\"", "str"), Pr("p3", "-3", "num")>>,
+              \* the same list spread over two and over three PROPERTY statements
+              <<Pr("p1", "1", "num"), Pr("", "", "split"), Pr("p2", "\"two\"", "str"), Pr("p3", "x", "id")>>,
+              <<Pr("p1", "v1", "id"), Pr("", "", "split"), Pr("p2", "v2", "id"), Pr("", "", "split"), Pr("p3", "v3", "id")>> }
 DensitySets == { << >>, <<[layer_name |-> "met1", rects |-> <<>>]>>,
                  <<[layer_name |-> "met1", rects |-> <<[p1 |-> P(1), p2 |-> P(4), val |-> Dn(2)]>>],
                    [layer_name |-> "met2", rects |-> <<[p1 |-> P(2), p2 |-> P(5), val |-> Dn(5)], [p1 |-> P(3), p2 |-> P(6), val |-> Dn(1)]>>]>> }
@@ -150,11 +154,11 @@ GeomLibs ==
   \cup { WithLayer([L0 EXCEPT !.spacing = <<[k |-> k, v |-> Dn(i)]>>]) : k \in {"SPACING", "DESIGNRULEWIDTH"}, i \in {2, 4} }
   \cup { WithLayer([L0 EXCEPT !.except_pg_net = <<TRUE>>, !.spacing = <<[k |-> "SPACING", v |-> Dn(2)]>>]) }
   \cup { WithLayer([L0 EXCEPT !.geoms = <<[G(k, n) EXCEPT !.mask = mk, !.iterate = it]>>])
-           : k \in {"RECT"}, n \in {2}, mk \in {<<>>, <<Dn(12)>>, <<Dn(9)>>}, it \in {<<>>, <<<<Dn(12), Dn(9), Dn(2), Dn(4)>>>>} }
+           : k \in {"RECT"}, n \in {2}, mk \in {<<>>, <<Dn(12)>>, <<Dn(9)>>, <<Dn(1)>>}, it \in {<<>>, <<<<Dn(12), Dn(9), Dn(2), Dn(4)>>>>} }
   \cup { WithLayer([L0 EXCEPT !.geoms = <<[G(k, n) EXCEPT !.mask = mk, !.iterate = it]>>])
-           : k \in {"POLYGON"}, n \in {3, 5}, mk \in {<<>>, <<Dn(12)>>}, it \in {<<>>, <<<<Dn(12), Dn(9), Dn(2), Dn(4)>>>>} }
+           : k \in {"POLYGON"}, n \in {3, 5}, mk \in {<<>>, <<Dn(12)>>, <<Dn(1)>>}, it \in {<<>>, <<<<Dn(12), Dn(9), Dn(2), Dn(4)>>>>} }
   \cup { WithLayer([L0 EXCEPT !.geoms = <<[G(k, n) EXCEPT !.mask = mk, !.iterate = it]>>])
-           : k \in {"PATH"}, n \in {2, 4}, mk \in {<<>>, <<Dn(12)>>}, it \in {<<>>, <<<<Dn(12), Dn(9), Dn(2), Dn(4)>>>>} }
+           : k \in {"PATH"}, n \in {2, 4}, mk \in {<<>>, <<Dn(12)>>, <<Dn(1)>>}, it \in {<<>>, <<<<Dn(12), Dn(9), Dn(2), Dn(4)>>>>} }
   \cup { WithLayer([L0 EXCEPT !.vias = <<[name |-> "via12", pt |-> P(i)]>>]) : i \in {1, 2} }
   \cup { WithLayer([L0 EXCEPT !.geoms = <<G("RECT", 2), G("PATH", 2), G("POLYGON", 3)>>, !.vias = <<[name |-> "v", pt |-> P(3)], [name |-> "w", pt |-> P(4)]>>]) }
   \cup { WithLayer(FullLayer) }
